@@ -15,6 +15,8 @@ from concurrent.futures import ThreadPoolExecutor
 VERIF = os.path.dirname(os.path.abspath(__file__))
 REPO = os.environ.get("VERIF_REPO", "/repo")
 BUILD = os.path.join(VERIF, "build")
+ALT = os.path.realpath(REPO) != "/repo"   # running against a scratch copy (mutant self-test): keep evidence and failures apart
+OUTDIR = os.path.join(BUILD, "alt-" + hashlib.sha1(REPO.encode()).hexdigest()[:8]) if ALT else VERIF
 NCPU = os.cpu_count() or 4
 
 sys.path.insert(0, VERIF)
@@ -456,17 +458,17 @@ def part_args(prop, part):
 
 
 def write_evidence(prop, tier, seed, level, wall, violations, coverage, assumptions):
-    os.makedirs(os.path.join(VERIF, "evidence"), exist_ok=True)
+    os.makedirs(os.path.join(OUTDIR, "evidence"), exist_ok=True)
     ev = {"property_id": prop, "tier": tier, "seed": seed, "level": level, "wall_s": round(wall, 2), "violations": violations,
           "coverage": coverage, "assumptions": assumptions}
-    p = os.path.join(VERIF, "evidence", prop + ".json")
+    p = os.path.join(OUTDIR, "evidence", prop + ".json")
     with open(p + ".tmp", "w") as f:
         json.dump(ev, f, indent=1, default=str)
     os.rename(p + ".tmp", p)
 
 
 def save_failure(prop, part, text, tag="fail"):
-    d = os.path.join(VERIF, "failures", prop)
+    d = os.path.join(OUTDIR, "failures", prop)
     os.makedirs(d, exist_ok=True)
     h = sha(text)[:10]
     ext = ".case"
